@@ -73,6 +73,44 @@ static std::string show(const Real& r) {
   return "T=" + vf::i128_str(r.t) + " " + refcal::str(refcal::from_secs(r.t + r.before.utoff)) + " -> " + refcal::str(civil_at(r.t, r.after.utoff));
 }
 
+// The templated overloads next_transition(time_point<D>) / prev_transition(time_point<D>) with a sub-second D:
+// changes happen at whole seconds, so for a query instant t + f (0 < f < 1 s) "strictly after" means after t
+// (= next_transition(t)) and "strictly before" means at or before t (= prev_transition(t + 1)).  The whole-second
+// answers are what check_query() compares with the model; this relates the sub-second overloads to them.
+static cctz::time_zone g_pub; static bool g_have_pub = false;
+template <typename D>
+static bool check_subsecond_as(int64_t t, int64_t frac, const char* dname, std::string* why) {
+  using TP = cctz::time_point<D>;
+  const int64_t per = D::period::den / D::period::num;  // units per second
+  // representable? (t*per + frac in int64)
+  if (t > INT64_MAX / per - 2 || t < INT64_MIN / per + 2) return true;
+  const TP tp = TP(D(t * per + frac));
+  cctz::time_zone::civil_transition a, b;
+  const bool gn = g_pub.next_transition(tp, &a), en = g_pub.next_transition(zp::tp(t), &b);
+  EV->eval(); EV->cls("subsecond_query");
+  if (gn != en || (gn && (a.from != b.from || a.to != b.to))) {
+    *why = std::string("next_transition(time_point<") + dname + ">) at " + vf::i64_str(t) + " s + " + vf::i64_str(frac) + "/" + vf::i64_str(per) +
+           " differs from next_transition(" + vf::i64_str(t) + " s): " + (gn ? show(a) : std::string("false")) + " vs " + (en ? show(b) : std::string("false"));
+    return false;
+  }
+  const bool gp = g_pub.prev_transition(tp, &a), ep = g_pub.prev_transition(zp::tp(t + 1), &b);
+  if (gp != ep || (gp && (a.from != b.from || a.to != b.to))) {
+    *why = std::string("prev_transition(time_point<") + dname + ">) at " + vf::i64_str(t) + " s + " + vf::i64_str(frac) + "/" + vf::i64_str(per) +
+           " is not the latest change strictly before it (= prev_transition(" + vf::i64_str(t + 1) + " s)): " + (gp ? show(a) : std::string("false")) + " vs " + (ep ? show(b) : std::string("false"));
+    return false;
+  }
+  return true;
+}
+static bool check_subsecond(int64_t t, std::string* why) {
+  if (!g_have_pub || t == INT64_MAX) return true;
+  const uint64_t hsh = vf::mix((uint64_t)t, 0x5b5ecULL);
+  switch (hsh % 3) {
+    case 0: { const int64_t f[] = {1, 500, 999}; return check_subsecond_as<std::chrono::milliseconds>(t, f[(hsh >> 8) % 3], "milliseconds", why); }
+    case 1: { const int64_t f[] = {1, 500000, 999999}; return check_subsecond_as<std::chrono::microseconds>(t, f[(hsh >> 8) % 3], "microseconds", why); }
+    default: { const int64_t f[] = {1, 500000000, 999999999}; return check_subsecond_as<std::chrono::nanoseconds>(t, f[(hsh >> 8) % 3], "nanoseconds", why); }
+  }
+}
+
 // one query instant: next and prev
 static bool check_query(const zp::Zone& z, const zp::Handle& h, int64_t t, std::string* why) {
   const zm::Model& m = z.model;
@@ -152,7 +190,7 @@ static bool check_query(const zp::Zone& z, const zp::Handle& h, int64_t t, std::
     *why = "prev_transition(" + vf::i64_str(t) + ") returned false; the previous real change is " + show(r);
     return false;
   }
-  return true;
+  return check_subsecond(t, why);
 }
 
 // forward chain from min() and backward chain from max() enumerate the same set
@@ -197,6 +235,11 @@ static bool check_zone(const zp::Zone& z, zp::Handle& h, bool in_rc, bool full, 
   if (m.pre_first_unspecified) EV->cls("zone_legacy_DST_type0_referenced(relations_only_at_first_change)");
   const uint64_t zh = vf::fnv(z.bytes);
   prepare_zone(m);
+  // a public handle for the templated overloads: the zone's own if it was opened publicly, and for shipped files one
+  // opened by path (the public cache never frees, so synthetic zones beyond the first few stay private)
+  g_have_pub = false;
+  if (h.pub) { g_pub = h.tz; g_have_pub = true; }
+  else if (z.kind == "shipped") g_have_pub = cctz::load_time_zone(z.load_name, &g_pub);
   int64_t cur = 0;
   vf::CurrentScope scope([&]() { vf::Case c; c.set("zone", z.label); c.set("t", cur); return c; });
   const zp::Anchors an = zp::anchors_for(m, full);
@@ -242,6 +285,7 @@ static bool replay(const vf::Case& c, std::string* why) {
   zp::Handle h = zp::open_public(z.load_name);
   if (!h.ok) return true;
   prepare_zone(z.model);
+  g_pub = h.tz; g_have_pub = true;
   if (c.has("t") && !check_query(z, h, (int64_t)c.num("t"), why)) return false;
   if (c.has("t") && !c.has("sweep")) return true;
   vf::Case fc;
@@ -258,7 +302,7 @@ static void run(const vf::Args& a, vf::Evidence& ev, vf::Reporter& rep) {
   zc::Ctx c{&a, &ev, &rep};
   zc::ZoneProp p;
   p.check_zone = check_zone;
-  zc::run_all(c, p, 300, 5000);
+  zc::run_all(c, p, 1500, 5000);
 }
 
 int main(int argc, char** argv) { return vf::main_dispatch(argc, argv, "C11", run, replay); }
